@@ -374,6 +374,7 @@ def execute(prog, known_cb=None):
             except ValueError:
                 pass
     out["digest"] = hashlib.sha256(repr(st.log).encode()).hexdigest()[:16]
+    out["rdigest"] = hashlib.sha256(repr(st.results).encode()).hexdigest()[:16]
     out["nontrivial"] = st.state_changing >= 2 or bool(out["faults"])
     out["ops"] = st.nops
     out["steps"] = st.lines
@@ -395,6 +396,7 @@ class _State(object):
         self.keys = []
         self.sigs = []
         self.log = []
+        self.results = []       # normalised results (process-history check)
         self.states = set()
         self.nops = 0
         self.lines = 0
@@ -546,6 +548,7 @@ class _State(object):
                       "canonical residues in [0, p-1]: %r (p=%d)"
                       % (name, got, p), dict(got=got, want=mval(want)),
                       even_scope=y0)
+        self.results.append((name, got))
         if got != mval(want):
             self.fail("refine", name,
                       "%s: library %r, reference model %r" % (
@@ -1092,6 +1095,30 @@ class _State(object):
         if self._sig_norm(sig2) != self._sig_norm(sig):
             self.fail("fresh", "sign_det-repeat",
                       "two deterministic signatures of the same data differ")
+        self.results.append(("sign_det", self._sig_norm(sig)))
+        if extra:
+            # the caller re-uses one buffer for the extra entropy and
+            # refreshes it in place between two calls
+            buf = bytearray(extra)
+            refreshed = bytearray(extra)
+            refreshed[0] ^= 0x5A
+            # what a fresh equal key gives for the refreshed bytes - asked
+            # for *before* the live key sees the buffer, so that a memo
+            # anywhere cannot serve the expectation and the answer alike
+            f_b = fk.sign_deterministic(msg, hashfunc=hf, sigencode=se,
+                                        extra_entropy=bytes(refreshed))
+            s_a = k.sk.sign_deterministic(msg, hashfunc=hf, sigencode=se,
+                                          extra_entropy=buf)
+            buf[0] ^= 0x5A
+            s_b = k.sk.sign_deterministic(msg, hashfunc=hf, sigencode=se,
+                                          extra_entropy=buf)
+            if self._sig_norm(s_a) != self._sig_norm(sig) or \
+                    self._sig_norm(s_b) != self._sig_norm(f_b):
+                self.fail("fresh", "sign_det-extra-buffer",
+                          "deterministic signature with extra entropy passed "
+                          "as a bytearray that was refreshed in place differs "
+                          "from what a fresh equal key returns for the same "
+                          "bytes")
         self._store_sig(k, msg, sig, op["enc"])
 
     def _digest_int(self, k, msg):
@@ -1180,6 +1207,7 @@ class _State(object):
         if got is not True and got != "bad":
             self.fail("refine", "verify-falsy",
                       "verify returned %r" % (got,))
+        self.results.append(("verify", repr(got)))
         if (got is True) != want:
             self.fail("refine", "verify",
                       "verify: library %r, model %r (key d=%d, sig by d=%d)"
@@ -1218,6 +1246,7 @@ class _State(object):
         if not ok:
             return
         want = ec.encode_point(env.mc, k.Q, op["enc"])
+        self.results.append(("vk_to_string", got.hex()))
         if got != want:
             self.fail("fresh", "vk_to_string",
                       "to_string(%s) is %s, want %s" % (
@@ -1251,6 +1280,7 @@ class _State(object):
         if not ok:
             return
         fr = bytes(self.fresh_key(k).to_der(op["enc"], op["fmt"]))
+        self.results.append(("sk_to_der", got.hex()))
         if got != fr:
             self.fail("fresh", "sk_to_der", "to_der differs between the live "
                       "key and a fresh equal key")
@@ -1292,6 +1322,8 @@ class _State(object):
         fmt = op["fmt"]
         enc = op["enc"]
         hf = self.hashfn(k.hash)
+        if not libx.fmt_ok(env.toy, fmt):
+            fmt = "vk_string" if fmt.startswith("vk") else "string"
 
         def fn():
             if fmt == "string":
